@@ -339,7 +339,7 @@ def native_holds(spec, obs, tree, scenario):
             return None
         allowed = spec["allowed"]
         for path, ent in tree.items():
-            if path == "cache" or path.startswith("cache/"):
+            if path == "cache" or path.startswith("cache/") or path == "systmp":
                 continue
             if path in allowed:
                 want = allowed[path]
@@ -359,6 +359,11 @@ def native_holds(spec, obs, tree, scenario):
             if want is not None and path not in tree:
                 return False
         return True
+    if k == "tree_no_systmp":
+        # nothing may sit in the process's system temporary directory ($ROOT/systmp natively)
+        if tree is None:
+            return None
+        return not any(p.startswith("systmp/") for p in tree)
     if k == "tree_eq_cache_empty":
         if tree is None:
             return None
